@@ -53,9 +53,9 @@ def get_bright_perc(mask, image, image_bg, bg_off=None):
         # Assign results
         p10[ii], p90[ii] = np.percentile(imgi[mski], q=[10, 90])
 
-    if bg_off:
-        p10 -= bg_off
-        p90 -= bg_off
+    if bg_off is not None:
+        p10 -= np.asarray(bg_off)
+        p90 -= np.asarray(bg_off)
 
     if ret_list:
         return p10, p90
